@@ -1089,6 +1089,14 @@ Proof.
            destruct (bad_redir dc); reflexivity.
 Qed.
 
+Lemma wf_prefix_call d infun x w nm args :
+  wf_cmd d infun (CPrefixCall x w nm args) = wf_cmd d infun (CCall plain nm args).
+Proof. cbn. destruct nm; try reflexivity; rewrite ?andb_true_r, ?orb_false_r; reflexivity. Qed.
+
+Lemma abs_restore sv r x old s :
+  abs sv r (restore_var x old s) = (fst (abs sv r s), restore_var x old (snd (abs sv r s))).
+Proof. destruct r as [|[c|c|[v|]|[v|]|[v|]|[v|]]]; try reflexivity. destruct sv; reflexivity. Qed.
+
 (* ---- commands ---- *)
 Lemma step_cmd n : sim_all n -> sim_cmd (S n).
 Proof.
@@ -1145,6 +1153,30 @@ Proof.
     inversion H; subst r s'.
     post_split; [eapply state_ok_same; [..|exact Hs]; reflexivity | apply res_ok_cont |].
     intros sv. ok_start. cbn [sem_cmd]. ok_rw. reflexivity.
+  - (* x=w NAME ARGS *)
+    cbn [exec_cmd] in H. rewrite wf_prefix_call in Hw.
+    destruct (expand_word w s) as [fields|] eqn:Ew.
+    + destruct (is_ronly x s) eqn:Ero.
+      * inversion H; subst r s'. post_split; [exact Hs | apply res_ok_expansion |]. intros sv.
+        rewrite (abs_expansion_error stk sv s ErrAssignment eq_refl eq_refl ex).
+        ok_now. cbn [sem_cmd]. rewrite Ew, Ero. reflexivity.
+      * destruct (exec_cmd n stk (CCall plain nm args) (set_var x (hd_error fields) s))
+          as [[r1 s1]|] eqn:Ecall; [|discriminate].
+        inversion H; subst r s'.
+        assert (Hs0 : state_ok (set_var x (hd_error fields) s))
+          by (eapply state_ok_same; [..|exact Hs]; reflexivity).
+        destruct (Icmd _ _ _ _ _ _ _ _ Ecall Hc Hw Hs0) as (Hs1 & Hr1 & Hok1).
+        post_split; [destruct (is_special nm); [exact Hs1 | eapply state_ok_same; [..|exact Hs1]; reflexivity]
+                    | exact Hr1 |].
+        intros sv. specialize (Hok1 sv).
+        destruct (abs sv r1 s1) as [c1 t1] eqn:Eabs.
+        assert (Hgoal : abs sv r1 (if is_special nm then s1 else restore_var x s s1)
+                        = (c1, if is_special nm then t1 else restore_var x s t1)).
+        { destruct (is_special nm); [exact Eabs|]. rewrite abs_restore, Eabs. reflexivity. }
+        rewrite Hgoal. ok_start. cbn [sem_cmd]. rewrite Ew, Ero. ok_rw. reflexivity.
+    + inversion H; subst r s'. post_split; [exact Hs | apply res_ok_expansion |]. intros sv.
+      rewrite (abs_expansion_error stk sv s ErrExpansion eq_refl eq_refl ex).
+      ok_now. cbn [sem_cmd]. rewrite Ew. reflexivity.
   - (* call *) exact (step_call n Icmd _ _ _ _ _ _ _ _ _ _ H Hc Hw Hs).
   - (* brace group *)
     cbn [exec_cmd] in H. cbn [wf_cmd] in Hw.
